@@ -1092,6 +1092,8 @@ func main() {
 		vectors(os.Args[2:])
 	case "record":
 		record(os.Args[2:])
+	case "conc":
+		concStage(os.Args[2:])
 	default:
 		fmt.Fprintln(os.Stderr, "unknown subcommand", os.Args[1])
 		os.Exit(2)
